@@ -37,6 +37,23 @@ func decorate(t *rapid.T, core string) string {
 	return wsGen.Draw(t, "ws1") + lead + core + trail + wsGen.Draw(t, "ws2")
 }
 
+// newRouter hands the options to the router through New or through WithOptions (legal until a route exists).
+func newRouter(t *rapid.T, opts []func(*rux.Router)) *rux.Router {
+	switch rapid.SampledFrom([]int{0, 0, 1, 2}).Draw(t, "optionsVia") {
+	case 1:
+		r := rux.New()
+		r.WithOptions(opts...)
+		return r
+	case 2:
+		r := rux.New()
+		for _, o := range opts {
+			r.WithOptions(o)
+		}
+		return r
+	}
+	return rux.New(opts...)
+}
+
 func try(f func()) (pv any) {
 	defer func() { pv = recover() }()
 	f()
@@ -58,7 +75,7 @@ func propStatic(t *rapid.T) {
 	if strict {
 		opts = append(opts, rux.StrictLastSlash)
 	}
-	r := rux.New(opts...)
+	r := newRouter(t, opts)
 	// group prefixes: non-empty cores; under strict mode without trailing slashes (the statement
 	// does not define how a trailing slash of a prefix concatenates)
 	ngroups := rapid.IntRange(0, 2).Draw(t, "ngroups")
@@ -164,7 +181,7 @@ func propDynamic(t *rapid.T) {
 	if strict {
 		opts = append(opts, rux.StrictLastSlash)
 	}
-	r := rux.New(opts...)
+	r := newRouter(t, opts)
 	lit := rapid.StringMatching(`[ab.]{1,2}`).Draw(t, "lit")
 	tail := rapid.SampledFrom([]string{"", "/x", "[/x]"}).Draw(t, "tail")
 	core := lit + "/{id}" + tail
@@ -233,7 +250,7 @@ func propEncoded(t *rapid.T) {
 	if encoded {
 		opts = append(opts, rux.UseEncodedPath)
 	}
-	r := rux.New(opts...)
+	r := newRouter(t, opts)
 	seg := rapid.SampledFrom([]string{"a b", "a%20b", "a%2Fb", "a/b", "é", "%C3%A9", "a%b", "a+b", "a%2520b"})
 	n := rapid.IntRange(1, 4).Draw(t, "nroutes")
 	registered := map[string]bool{}
@@ -295,7 +312,7 @@ func propTotal(t *rapid.T) {
 	if rapid.Bool().Draw(t, "handle405") {
 		opts = append(opts, rux.HandleMethodNotAllowed)
 	}
-	r := rux.New(opts...)
+	r := newRouter(t, opts)
 	str := rapid.OneOf(
 		rapid.StringMatching(`[ /\t\n]{0,4}`),
 		rapid.StringMatching(`[ab/ .%\t]{0,6}`),
